@@ -95,6 +95,19 @@ fn sample_mult(lambda: f64) -> f64 {
     count
 }
 
+/// ln(k!) computed without forming k!, which overflows long before its logarithm does:
+/// exact sum for small k, Stirling's series otherwise.
+fn ln_factorial(k: f64) -> f64 {
+    if k < 20. {
+        (2..=k as u64).map(|i| (i as f64).ln()).sum()
+    } else {
+        let x = k + 1.;
+        (x - 0.5) * x.ln() - x + 0.5 * (2. * std::f64::consts::PI).ln() + 1. / (12. * x)
+            - 1. / (360. * x.powi(3))
+            + 1. / (1260. * x.powi(5))
+    }
+}
+
 #[allow(non_snake_case)]
 fn sample_ptrs(lam: f64) -> f64 {
     let slam = lam.sqrt();
@@ -116,7 +129,7 @@ fn sample_ptrs(lam: f64) -> f64 {
             continue;
         }
         if (V.ln() + invalpha.ln() - (a / (us * us) + b).ln())
-            <= (-lam + k * loglam - gamma(k + 1.).ln())
+            <= (-lam + k * loglam - ln_factorial(k))
         {
             return k;
         }
